@@ -998,6 +998,45 @@ pub fn c19(ctx: &mut Ctx) {
             j.expect_calls = Some(0);
             jobs.push(j);
         }
+        // (e') an Authorization header plus an X-Amz-Algorithm parameter of any value — signed consistently,
+        // i.e. the parameter is part of the signed query — is still refused
+        for alg in ["AWS4-HMAC-SHA512", "aws4-hmac-sha256", "", "AWS3", "AWS4-HMAC-SHA256 "] {
+            let mut l5 = l.clone();
+            l5.query.push((b"X-Amz-Algorithm".to_vec(), alg.as_bytes().to_vec()));
+            let s5 = sign_and_spell(&l5, &mut rng, &Spelling::plain(), now);
+            let mut j = job(s5.case, Expect::Refuse(Some("SignatureDoesNotMatch")), "c19-both-carriers", "C19: a request with an Authorization header and an X-Amz-Algorithm parameter (whatever its value) must be refused");
+            j.expect_calls = Some(0);
+            jobs.push(j);
+        }
+        // (f') folded form body repeating X-Amz-* parameters of the query carrier: URL values come first
+        {
+            let mut lq = l.clone();
+            lq.carrier = Carrier::Query;
+            lq.fold = true;
+            lq.s3 = false;
+            lq.content_type = Some("application/x-www-form-urlencoded".into());
+            lq.body.clear();
+            lq.form = Some(vec![
+                (b"X-Amz-Credential".to_vec(), b"AKIDOTHER/20000101/nowhere/none/aws4_request".to_vec()),
+                (b"X-Amz-Date".to_vec(), b"20000101T000000Z".to_vec()),
+                (b"X-Amz-Signature".to_vec(), bad_sig.clone().into_bytes()),
+                (b"X-Amz-SignedHeaders".to_vec(), b"host".to_vec()),
+                (b"b".to_vec(), b"1".to_vec()),
+            ]);
+            lq.signed.retain(|x| x != "content-type");
+            lq.signed.push("content-type".into());
+            let sq = sign_and_spell(&lq, &mut rng, &Spelling::plain(), now);
+            let mut j = job(sq.case.clone(), Expect::Accept, "c19-folded-repeats", "C19: of a parameter repeated in URL and folded body the URL (first) value is the one authenticated");
+            j.expect_calls = Some(1);
+            jobs.push(j);
+            // the valid signature only in the body, a bogus one first in the URL: refused
+            let mut c2 = sq.case.clone();
+            c2.uri = c2.uri.replace(&sq.signature, &bad_sig);
+            c2.body = String::from_utf8_lossy(&c2.body).replace(&bad_sig, &sq.signature).into_bytes();
+            if c2.uri != sq.case.uri {
+                jobs.push(job(c2, Expect::Refuse(Some("SignatureDoesNotMatch")), "c19-folded-repeats", "C19: a signature that occurs only later (in the folded body) must not be the one authenticated"));
+            }
+        }
         // (f) query carrier: repeated X-Amz-* parameter, the first value counts
         {
             let mut lq = l.clone();
